@@ -3,7 +3,7 @@ import json
 import os
 import re
 
-from rulelib import (walk, match_table, path_sig, event_strs, canon, atom_str, leaf_str, where,
+from rulelib import (walk, match_table, path_sig, event_strs, canon, atom_str, leaf_str, where, depth_limit,
                      nonpanic, const_int)
 from pathwalk import const_val
 from mirlib import AnchorMissing
@@ -562,3 +562,30 @@ def permit_before_pull(ctx, rid):
                 bad.append(atoms)
         ctx.check(rid, "Worker::%s permit-before-pull" % name, n > 0 and not bad,
                   "Worker::%s pulls from quinn without %d successful reservation(s) before it: %s" % (name, nres, bad[:2]), where(fn))
+
+
+def connect_response_table(ctx, rid):
+    """Endpoint::connect: how the response is classified (suffix of each path)"""
+    fn = ctx.A.fn("wtransport::endpoint::Endpoint::connect::{closure#0}")
+    with depth_limit(3):
+        paths = nonpanic(walk(fn))
+        sigs = [path_sig(p) for p in paths]
+    def has(atom_rx, leaf_rx):
+        hit = [(a, l) for a, l in sigs if any(re.search(atom_rx, x) for x in a[-3:])]
+        return bool(hit) and all(re.search(leaf_rx, l) for a, l in hit)
+    ctx.check(rid, "connect: non-HEADERS response->FrameUnexpected", has(r"^Frame::kind\(.*\) isnot Headers$", r"local_h3_error\(ErrorCode::FrameUnexpected\)"),
+              "Endpoint::connect: a non-HEADERS first response frame is not refused with H3_FRAME_UNEXPECTED", where(fn))
+    ctx.check(rid, "connect: undecodable HEADERS->its code", has(r"^Headers::with_frame\(.*\) is Err$", r"local_h3_error\(….0\)|local_h3_error\(\(Headers::with_frame"),
+              "Endpoint::connect: undecodable HEADERS not reported with the decoder's error code", where(fn))
+    ctx.check(rid, "connect: malformed status->Message", has(r"^<SessionResponse as TryFrom<Headers>>::try_from\(.*\) is Err$", r"local_h3_error\(ErrorCode::Message\)"),
+              "Endpoint::connect: malformed response not refused with H3_MESSAGE_ERROR", where(fn))
+    ctx.check(rid, "connect: non-2xx->SessionRejected", has(r"^!StatusCode::is_successful\(SessionResponse::code\(", r"^return Result::Err\(ConnectingError::SessionRejected\)$"),
+              "Endpoint::connect: a non-2xx status does not yield SessionRejected", where(fn))
+    okp = [(a, l) for a, l in sigs if l.startswith("return Result::Ok(Connection::new(")]
+    ctx.check(rid, "connect: Ok only on 2xx + registered", bool(okp) and all(
+        any(re.search(r"^StatusCode::is_successful\(SessionResponse::code\(", x) for x in a) and any(re.search(r"^await\(Driver::register_session\(.*\)\) is Ok$", x) for x in a) for a, l in okp),
+        "Endpoint::connect returns Ok(Connection) on a path without `code().is_successful()` and a registered session", where(fn))
+    rej = [(a, l) for a, l in sigs if l == "return Result::Err(ConnectingError::SessionRejected)"]
+    ctx.check(rid, "connect: SessionRejected causes", bool(rej) and all(
+        any(re.search(r"^!StatusCode::is_successful\(", x) for x in a[-2:]) or any(re.search(r"write_frame\(.*\)\) as Err\)\.0 is Stopped$", x) for x in a[-2:]) for a, l in rej),
+        "Endpoint::connect reports SessionRejected for a cause other than a non-2xx status / stopped request stream: %s" % [a[-1] for a, l in rej][:3], where(fn))
